@@ -11,6 +11,8 @@
 #include <vector>
 #include <setjmp.h>
 #include <signal.h>
+#include <sys/wait.h>
+#include <unistd.h>
 
 namespace pgp {
 
@@ -443,6 +445,63 @@ struct Guard {
 	}
 };
 inline bool mapped_hash(unsigned h) { return h == 1 || h == 2 || h == 3 || (h >= 8 && h <= 12) || h == 14; }
+
+// Evaluate fn(0..n-1) -> accepted? in a forked child so that a fatal signal inside the library (or inside libgcrypt on
+// behalf of the library) is an outcome.  Result: one character per item, 'A' accepted, 'R' rejected, 'C' the call killed
+// the process (the child is restarted behind that item).  sigs[i] = signal number for 'C' items.
+template<class F> inline std::string forked_scan(size_t n, F fn, std::vector<int> &sigs)
+{
+	std::string out;
+	sigs.assign(n, 0);
+	while (out.size() < n)
+	{
+		size_t start = out.size();
+		int fd[2];
+		if (pipe(fd))
+			exit(2);
+		fflush(stdout);
+		pid_t pid = fork();
+		if (pid < 0)
+			exit(2);
+		if (pid == 0)
+		{
+			close(fd[0]);
+			int ss[] = { SIGSEGV, SIGBUS, SIGFPE, SIGABRT, SIGILL };
+			for (int i = 0; i < 5; i++)
+				signal(ss[i], SIG_DFL);
+			std::string buf;
+			for (size_t i = start; i < n; i++)
+			{
+				char c = fn(i) ? 'A' : 'R';
+				if (write(fd[1], &c, 1) != 1)
+					_exit(3);
+			}
+			_exit(0);
+		}
+		close(fd[1]);
+		char b[4096];
+		ssize_t r;
+		while ((r = read(fd[0], b, sizeof b)) > 0)
+			out.append(b, (size_t)r);
+		close(fd[0]);
+		int st = 0;
+		waitpid(pid, &st, 0);
+		if (out.size() < n)
+		{
+			if (WIFSIGNALED(st))
+			{
+				sigs[out.size()] = WTERMSIG(st);
+				out += 'C';
+			}
+			else
+			{
+				fprintf(stderr, "forked_scan: child ended (status %d) after %zu of %zu items\n", st, out.size(), n);
+				exit(2);
+			}
+		}
+	}
+	return out;
+}
 
 }
 #endif
